@@ -41,7 +41,7 @@ type TLCOpts struct {
 	Module   string            // module name (file spec/<Module>.tla)
 	Config   string            // cfg file name inside spec/ (e.g. "mc/Stream.cfg") or inline text if it contains a newline
 	Workers  int               // default 8
-	Timeout  time.Duration     // default 10 min
+	Timeout  time.Duration     // default 10 min (30 min in the thorough tier)
 	Env      map[string]string // environment for IOEnv
 	Simulate string            // e.g. "num=1000" => -simulate num=1000
 	Depth    int
@@ -109,6 +109,7 @@ func RunTLC(o TLCOpts) (*TLCResult, error) {
 	}
 	if o.Timeout == 0 {
 		o.Timeout = 10 * time.Minute
+
 	}
 	scratch, err := os.MkdirTemp("", "vtlc-")
 	if err != nil {
